@@ -692,9 +692,11 @@ fn float_exponent(input: &[u8]) -> LexResult<'_, Exponent> {
     };
     let (input, s_opt) = opt(sign)(input)?;
     let (input, exponent) = digits(input)?;
+    // Exponents beyond the range of the type behave the same as the largest exponent
+    let exponent = i64::try_from(exponent).unwrap_or(i64::MAX);
     let exponent = match s_opt {
-        Some(Sign::Negative) => -(exponent as i64),
-        _ => exponent as i64,
+        Some(Sign::Negative) => -exponent,
+        _ => exponent,
     };
     Ok((input, Exponent(exponent)))
 }
